@@ -441,11 +441,12 @@ pub fn silence_panics() {
 pub fn fuzz_campaign(target: &str, runs: u64, max_len: usize, seed: u64, seeds: &[Vec<u8>]) -> Result<(Option<Vec<u8>>, String), String> {
     let root = verif_root();
     let hdir = root.join("harness");
-    let build = std::process::Command::new("cargo").args(["+nightly", "fuzz", "build", target]).current_dir(&hdir).env("CARGO_NET_OFFLINE", "true").env_remove("CARGO_TARGET_DIR").output().map_err(|e| e.to_string())?;
+    let tdir = root.join("target").join("fuzz-build");
+    let build = std::process::Command::new("cargo").args(["+nightly", "fuzz", "build", target, "--target-dir"]).arg(&tdir).current_dir(&hdir).env("CARGO_NET_OFFLINE", "true").env_remove("CARGO_TARGET_DIR").output().map_err(|e| e.to_string())?;
     if !build.status.success() {
         return Err(format!("cargo fuzz build failed: {}", String::from_utf8_lossy(&build.stderr).lines().rev().take(5).collect::<Vec<_>>().join(" | ")));
     }
-    let bin = hdir.join("fuzz").join("target").join("x86_64-unknown-linux-gnu").join("release").join(target);
+    let bin = tdir.join("x86_64-unknown-linux-gnu").join("release").join(target);
     let work = root.join("target").join(format!("fuzz-{target}"));
     let _ = std::fs::remove_dir_all(&work);
     let corpus = work.join("corpus");
